@@ -65,10 +65,12 @@ def evaluate(j, comps):
             blocks = j['members']  # one list per repetition
             if not blocks:
                 return []
-            positions = [p for p, _ in pick(blocks[0], id_, slc)]
+            # (rebased: every repetition is matched on its own since the fix on HEAD, the
+            # positions are no longer those matched in the first repetition)
             envelope = []
             for block in blocks:
-                r = proceed([block[p] for p in positions], comps)
+                picked = [n for _, n in pick(block, id_, slc)]
+                r = proceed(picked, comps) if picked else []
                 if r:
                     envelope.append(r)
             return [envelope] if envelope else []  # one envelope per replication
@@ -314,10 +316,15 @@ def main():
     assert raises(IndexError, q.filter_for_child_sub_nodes, empty, [])
     assert raises(QueryError, q.filter_for_child_sub_nodes, V('A'), [])  # the members check comes first
     # degenerate hand-made replications
-    assert child(R('100000', 0, [V('A')]), PC('/', 'A')) == []
+    # (rebased: since "fix: a child step below a replication is matched in every repetition" there is no
+    # matching on the first block any more: blocks of zero members are a ValueError of range() and a
+    # ragged last block is matched on what it has)
+    assert raises(ValueError, q.filter_for_child_sub_nodes, R('100000', 0, [V('A')]), [PC('/', 'A')])
     assert child(R('100000', -1, [V('A'), V('A')]), PC('/', 'A')) == []
-    assert raises(IndexError, q.filter_for_child_sub_nodes,
-                  R('102002', 2, [V('B'), V('A'), V('B')]), [PC('/', 'A')])   # ragged last block
+    assert child(R('102002', 2, [V('B'), V('A'), V('B')]), PC('/', 'A')) == [[['A']]]   # ragged last block
+    assert child(R('102002', 2, [V('B'), V('A'), V('B')]), PC('/', 'B')) == [[['B'], ['B']]]
+    # repetitions that do not carry the same descriptors are matched one by one
+    assert child(R('102002', 2, [V('A'), V('B'), V('B'), V('A'), V('C'), V('C')]), PC('/', 'A')) == [[['A'], ['A']]]
     no_n_members = R('101000', None, [V('A')])
     assert raises(AttributeError, q.filter_for_child_sub_nodes, no_n_members, [PC('/', 'A')])
     no_n_members.members = []
